@@ -257,6 +257,74 @@ class EmptyRegistry(metaclass=LenMeta):
         return ('make', cls.__name__, y)
 
 
+# ---- callable objects whose == is not identity (the wrapper must never depend on the target's __eq__)
+class IntCallable(int):
+    """int-like callable: small values equal module constants such as re.M, inspect.CO_NEWLOCALS"""
+
+    def __call__(self, x, y=2, **kw):
+        LOG.append(('IntCallable.__call__', int(self), x, y, tuple(sorted(kw.items()))))
+        if x > 0:
+            return ('intcall', int(self) + x + y)
+        return ('intcall', int(self))
+
+
+class AlwaysEq(object):
+    def __eq__(self, other):
+        return True
+
+    def __ne__(self, other):
+        return False
+
+    def __hash__(self):
+        return id(self) >> 4
+
+    def __call__(self, x, y=2, **kw):
+        LOG.append(('AlwaysEq.__call__', x, y, tuple(sorted(kw.items()))))
+        if x > 0:
+            return ('alwayseq', x + y)
+        return ('alwayseq', y)
+
+
+class _Ambiguous(object):
+    def __bool__(self):
+        raise ValueError('The truth value of an elementwise comparison is ambiguous')
+
+
+class Elementwise(object):
+    """numpy-style: == gives a non-bool whose truth value raises"""
+    __hash__ = None
+
+    def __eq__(self, other):
+        LOG.append(('Elementwise.__eq__',))
+        return _Ambiguous()
+
+    def __call__(self, x, y=2, **kw):
+        LOG.append(('Elementwise.__call__', x, y, tuple(sorted(kw.items()))))
+        if x > 0:
+            return ('elementwise', x + y)
+        return ('elementwise', y)
+
+
+class RaisingEq(object):
+    __hash__ = None
+
+    def __eq__(self, other):
+        raise RuntimeError('__eq__ must not be called by the call wrapper')
+
+    def __call__(self, x, y=2, **kw):
+        LOG.append(('RaisingEq.__call__', x, y))
+        if x > 0:
+            return ('raisingeq', x + y)
+        return ('raisingeq', y)
+
+
+class RaisingEqHashable(RaisingEq):
+    """hashable although == raises (known finding: the weak-key allow-list cache compares the key with itself)"""
+
+    def __hash__(self):
+        return id(self) >> 4
+
+
 def with_self_attr(x, y=2, **kw):
     LOG.append(('with_self_attr', x, y, tuple(sorted(kw.items()))))
     if x > 0:
